@@ -397,3 +397,60 @@ def helper_assigns(ctx: Context, fn: FunctionInfo, call: ast.AST,
                                                           depth - 1):
                 return True
     return False
+
+
+def return_tags(ctx: Context, callee: FunctionInfo, call: ast.Call, arg_tags,
+                hook_factory, depth: int) -> frozenset:
+    """Tags of the value returned by `callee` at `call`: the callee is
+    specialised on the constant arguments of the call (E4) and analysed
+    with the same hook (built by hook_factory(callee, depth))."""
+    from sa.cfg import CFG
+    env = {}
+    init: State = {}
+    for p in callee.params():
+        e = passed_expr(call, callee, p)
+        if e is None:
+            d = callee.param_default(p)
+            if isinstance(d, ast.Constant):
+                env[p] = d.value
+            continue
+        if isinstance(e, ast.Constant):
+            env[p] = e.value
+        init[p] = arg_tags(e)
+    if callee.cls is not None and not callee.is_static and callee.params():
+        init.setdefault(callee.params()[0], EMPTY)
+    cfg = CFG(callee, env=env)
+    tf = TagFlow(cfg, init, hook=hook_factory(callee, depth + 1))
+    out = EMPTY
+    for n in cfg.live_nodes():
+        if n.kind == "stmt" and isinstance(n.ast, ast.Return) and \
+                n.ast.value is not None:
+            out |= tf.tags_at(n, n.ast.value)
+    return out
+
+
+def interproc(ctx: Context, base_factory, max_depth: int = 2):
+    """Wrap a hook factory `base_factory(fn) -> hook` so that calls resolved
+    to exactly one internal function get the tags of that function's return
+    value (helper extraction is then transparent to tag rules)."""
+
+    def factory(fn: FunctionInfo, depth: int = 0):
+        base = base_factory(fn)
+
+        def hook(e, state, rec):
+            r = base(e, state, rec) if base is not None else None
+            if r is not None:
+                return r
+            if isinstance(e, ast.Call) and depth < max_depth:
+                targets = [t for t in ctx.internal_targets(fn, e)
+                           if not isinstance(t.node, ast.Lambda) and
+                           t.name != "__init__"]
+                if len(targets) == 1 and any(
+                        isinstance(x, ast.Return) and x.value is not None
+                        for x in targets[0].body_nodes()):
+                    return return_tags(ctx, targets[0], e, rec, factory, depth)
+            return None
+
+        return hook
+
+    return factory
